@@ -26,7 +26,7 @@ Definition incl_str (a b : list str) : bool := forallb (fun k => mem_str k b) a.
 Definition set_eq_str (a b : list str) : bool := incl_str a b && incl_str b a && Nat.eqb (length a) (length b).
 Fixpoint distinct_str (l : list str) : list str :=
   match l with [] => [] | x :: r => if mem_str x r then distinct_str r else x :: distinct_str r end.
-Definition has_hole (t : uobj) : bool := existsb (fun p => match p with Hole => true | _ => false end) t.
+Definition has_hole (t : uobj) : bool := existsb (fun p => match p with Hole => true | HHole => true | _ => false end) t.
 
 Definition slot_id (ring : list nat) (c : N) : nat := match slot ring c with Ok t => t | _ => (1000 + length ring)%nat end.
 Definition sum_nat (l : list nat) : nat := fold_right Nat.add O l.
@@ -34,8 +34,8 @@ Definition sum_nat (l : list nat) : nat := fold_right Nat.add O l.
 Inductive case :=
 (* forced schedule on the real HTTPProxy: thread i requests [paths_i] on a redirect route with
    template [tmpl]; [sched] is the replayed schedule in the model's actions (a whole Lookup =
-   two actions of that thread, the rest of ServeHTTP = one); impl = each client's Location *)
-| CRedir (tmpl : uobj) (paths : list str) (sched : list nat) (impl : list (outcome str))
+   four actions of that thread, the rest of ServeHTTP = one); impl = each client's Location *)
+| CRedir (tmpl : uobj) (reqs : list (str * str)) (sched : list nat) (impl : list (outcome str))
 (* stress: one request's Location while the requests [others] were in flight on the same target *)
 | CRedirStress (tmpl : uobj) (own : str) (others : list str) (impl : str)
 (* a sequential history of GlobCache.Get on a fresh cache of [size]; impl: per call result
@@ -51,7 +51,7 @@ Inductive case :=
 | CRRConc (ring : list nat) (c0 : N) (threads per : nat) (impl_counts : list nat) (impl_c : N)
 (* sequential Table.Lookup on a table given as candidate hosts in visiting order; the cursor of
    the answering route is [cursor]; impl = (host idx, route idx, target idx, Location) *)
-| CLookup (hosts : list (list route)) (path : str) (cursor : N)
+| CLookup (hosts : list (list route)) (path host : str) (cursor : N)
           (impl : option (nat * nat * nat * option str)).
 
 Definition res_eqb (m : option lk_result) (i : option (nat * nat * nat * option str)) : bool :=
@@ -65,16 +65,22 @@ Definition res_eqb (m : option lk_result) (i : option (nat * nat * nat * option 
 
 Definition check_case (c : case) : N :=
   match c with
-  | CRedir tmpl paths sched impl =>
-      let '(_, ts) := run (rd_step tmpl) sched rd_start (map rd_init paths) in
+  | CRedir tmpl reqs sched impl =>
+      let '(_, ts) := run (rd_step tmpl) sched rd_start (map (fun q => rd_init (fst q) (snd q)) reqs) in
       let same := all2 opt_out_eqb (rd_results ts) impl in
-      let spec := all2 (fun p o => oeq o (Ok (rd_own tmpl p))) paths impl in
-      let conc := Nat.ltb 1 (length (distinct_str paths)) && has_hole tmpl in
-      verdict same spec (if conc then Some 1%N else None) (Nat.ltb 1 (length paths))
+      (* every request is answered as it would be alone on a fresh table *)
+      let spec := all2 (fun (q : str * str) o => oeq o (Ok (rd_own tmpl (fst q) (snd q)))) reqs impl in
+      (* the known region: requests that really overlap (a schedule that is not serial) *)
+      let conc := Nat.ltb 1 (length (distinct_str (map (fun q => fst q ++ 0%N :: snd q) reqs))) && has_hole tmpl
+                  && negb (list_eqb Nat.eqb sched (serial 5 0 (length reqs))) in
+      verdict same spec (if conc then Some 1%N else None) (Nat.ltb 1 (length reqs))
   | CRedirStress tmpl own others impl =>
       (* every value some interleaving of the model produces: the own URL, another request's,
-         or the template another request had just allocated and not yet filled *)
-      let same := mem_str impl (render tmpl :: map (rd_own tmpl) (own :: others)) in
+         or the object another request had just allocated and not yet stripped / filled *)
+      let shapes := [tmpl; strip tmpl] in
+      let same := mem_str impl (map render shapes ++
+                                flat_map (fun o => map (fun p => render (fill o p)) (own :: others)) shapes) in
+      let rd_own t p := rd_own t p [] in   (* the stress templates have no $host *)
       let spec := beq impl (rd_own tmpl own) in
       let conc := negb (Nat.eqb (length others) 0) && has_hole tmpl in
       verdict same spec (if conc then Some 1%N else None) true
@@ -94,25 +100,30 @@ Definition check_case (c : case) : N :=
   | CRRSeq ring c0 k impl impl_c =>
       let '(tot, ts) := run rr_step_torn (repeat O (3 * k)) c0 [rr_init k] in
       let same := list_eqb Nat.eqb (map (slot_id ring) (all_seen ts)) impl && N.eqb tot impl_c in
-      let spec := list_eqb Nat.eqb (map (slot_id ring) (consecutive c0 k)) impl
+      (* k consecutive ring positions, starting at the cursor (or, for a picker that uses the
+         value the atomic add returns, at the one after it) *)
+      let spec := (list_eqb Nat.eqb (map (slot_id ring) (consecutive c0 k)) impl
+                   || list_eqb Nat.eqb (map (slot_id ring) (consecutive (N.modulo (c0 + 1) two64) k)) impl)
                   && N.eqb impl_c (N.modulo (c0 + N.of_nat k) two64) in
       verdict same spec None (Nat.ltb 1 (length ring) && Nat.ltb 1 k)
   | CRRConc ring c0 threads per impl_counts impl_c =>
       let n := (threads * per)%nat in
       (* in every interleaving every pick adds one to the cursor and returns a ring member *)
       let same := Nat.eqb (sum_nat impl_counts) n && N.eqb impl_c (N.modulo (c0 + N.of_nat n) two64) in
-      let want := map (slot_id ring) (consecutive c0 n) in
-      let spec := same && all2 (fun t cnt => Nat.eqb (count_nat t want) cnt) (seq 0 (length impl_counts)) impl_counts in
+      let want c := if N.leb (c + N.of_nat n) two64 then window ring c n
+                    else map (slot_id ring) (consecutive c n) in
+      let exact w := all2 (fun t cnt => Nat.eqb (count_nat t w) cnt) (seq 0 (length impl_counts)) impl_counts in
+      let spec := same && (exact (want c0) || exact (want (N.modulo (c0 + 1) two64))) in
       verdict same spec (if Nat.ltb 1 threads then Some 2%N else None) (Nat.ltb 1 threads)
-  | CLookup hosts path cursor impl =>
+  | CLookup hosts path host cursor impl =>
       let s0 := {| lk_cursor := fun _ => cursor; lk_redirect := fun _ => None |} in
-      match fst (lookup hosts path s0) with
+      match fst (lookup hosts path host s0) with
       | Ok m =>
           let same := res_eqb m impl in
           (* the result is a function of table, request and the one cursor: the lookup with
              every other piece of shared state changed gives the same answer *)
           let s1 := {| lk_cursor := fun _ => cursor; lk_redirect := fun _ => Some path |} in
-          let spec := match fst (lookup hosts path s1) with Ok m1 => res_eqb m1 impl | _ => false end in
+          let spec := match fst (lookup hosts path host s1) with Ok m1 => res_eqb m1 impl | _ => false end in
           verdict same spec None (match m with Some _ => true | None => false end)
       | _ => 3%N
       end
